@@ -937,7 +937,9 @@ theorem qinv_step (s : St) (op : Op) (h : QInv s) : QInv (step s op) := by
           · cases hd
             unfold broadcastProgress
             have hev : EvOk s.progressRev (progressEv { s with hbDue := false }) := by
-              refine ⟨fun _ => rfl, ?_, by decide⟩
+              refine ⟨fun _ => rfl, ?_, fun hc => by
+                have hc' : EvType.progress = EvType.canceled := hc
+                cases hc'⟩
               intro hd
               have hd' : EvType.progress = EvType.put ∨ EvType.progress = EvType.delete := hd
               exact absurd hd' (by decide)
